@@ -2161,7 +2161,7 @@ fn main() {
     let args = Args::parse();
     let mut rep = Report::new("C12", &args);
     rep.max_samples = 12;
-    rep.rule = "cases: (a) random DebugInfo push sequences with all lookups 0..max+2 [non-trivial: >= 3 pushes]; (b) format_source_excerpt on random texts x random spans incl. out-of-guard ones [non-trivial: >= 2 lines or outside the guard]; (c) generated programs with a single-line fault planted at a known line inside 0-4 nested calls (call line = line of the callee token; call expressions may span lines) after random preceding constructs [non-trivial: >= 1 call level or >= 8 lines]; (d) one-token syntactic breaks of such programs with an unambiguous first bad token, and end-of-input cuts with at most one trailing line break (expected line = last line with text); (e) programs with single- and multi-line debug expressions; (f) a fault inside a function of an imported module (two chunks with their own texts and paths), called through 1-3 call sites in module and main script. The language guide does not say which line a failing multi-line expression reports, so planted faults are single-line expressions and for multi-line call expressions only the start line (callee token) is fixed, the reported span must stay inside the call expression. distinct = distinct request/program texts".into();
+    rep.rule = "cases: (a) random DebugInfo push sequences with all lookups 0..max+2 [non-trivial: >= 3 pushes]; (b) format_source_excerpt on random texts x random spans incl. out-of-guard ones [non-trivial: >= 2 lines or outside the guard]; (c) generated programs with a single-line fault planted at a known line inside 0-4 nested calls (call line = line of the callee token; call expressions may span lines) after random preceding constructs [non-trivial: >= 1 call level or >= 8 lines]; levels of the call chain may run inside callbacks of core-library functions (eager fold/any/all/find/position; lazy each/keep with their consumer), predicted by Trace.predictSegs; (d) one-token syntactic breaks of such programs with an unambiguous first bad token, and end-of-input cuts with at most one trailing line break (expected line = last line with text); (e) programs with single- and multi-line debug expressions; (f) a fault inside a function of an imported module (two chunks with their own texts and paths), called through 1-3 call sites in module and main script. The language guide does not say which line a failing multi-line expression reports, so planted faults are single-line expressions and for multi-line call expressions only the start line (callee token) is fixed, the reported span must stay inside the call expression. distinct = distinct request/program texts".into();
     let drv = Driver::spawn(&args.driver);
     let open: Vec<String> = rep.known_open().iter().filter_map(|e| e["id"].as_str().map(|s| s.to_string())).collect();
     let mut cx = Ctx { rep, drv, k_fail: 0, d_fail: 0, known_hits: Default::default(), open, verbose: args.replay.is_some(), mod_counter: 0 };
